@@ -69,6 +69,72 @@ class ClientSubRun:
             self.res.add("C02", "sim_internal", "partial frame on client socket")
         return [h for h, _p in frames]
 
+    def concurrent_ops(self):
+        """the two Client objects of this process change their subscriptions at the same time from two threads;
+        the scheduler may switch between them at any line of the client module"""
+        import sys
+        from pyrtma.exceptions import InvalidSubscription
+        ch = self.ch
+        w = self.w
+        c, tw = self.client, self.twin
+        if tw is None or not tw.connected:
+            return
+        baton = w.baton
+        main = baton.main
+        k1 = ch.choose("cc.k1", ["subscribe", "unsubscribe", "pause", "resume"])
+        k2 = ch.choose("cc.k2", ["subscribe", "unsubscribe", "pause", "resume"])
+        l1 = self.arg_list("cc.a1")
+        l2 = self.arg_list("cc.a2")
+        state = {"other": None, "done2": False}
+
+        def local(frame, event, arg):
+            if event == "line" and ch.flag("cc.switch", 1, 4):
+                me = baton.current
+                if me is main:
+                    t2 = state["other"]
+                    if t2 is not None and not t2.done:
+                        baton.switch(t2)
+                else:
+                    baton.switch(main)
+            return local
+
+        def tracer(frame, event, arg):
+            if event == "call" and frame.f_code.co_filename.endswith("pyrtma/client.py"):
+                return local
+            return None
+
+        def call(cl, kind, lst):
+            try:
+                {"subscribe": cl.subscribe, "unsubscribe": cl.unsubscribe, "pause": cl.pause_subscription,
+                 "resume": cl.resume_subscription}[kind](lst)
+            except InvalidSubscription:
+                pass
+
+        def second():
+            sys.settrace(tracer)
+            try:
+                call(tw, k2, l2)
+            finally:
+                sys.settrace(None)
+                state["done2"] = True
+
+        t2 = baton.spawn("twin_thread", second)
+        state["other"] = t2
+        self.t(f"concurrently: client {k1}({['ALL' if x == ALL else x for x in l1]}) / twin {k2}({['ALL' if x == ALL else x for x in l2]})")
+        sys.settrace(tracer)
+        try:
+            call(c, k1, l1)
+        finally:
+            sys.settrace(None)
+        guard = 0
+        while not t2.done:
+            guard += 1
+            if guard > 100000:
+                break
+            baton.switch(t2)
+        self.res.probes["concurrent_client_ops"] += 1
+        self.check_agreement("concurrent subscription changes by two clients of the process")
+
     def racing_probe(self, what):
         """Probes are published while the client's request frames are still in flight, so both may be ready
         in the same select round.  Whatever the service order, a probe that the manager reads AFTER all of the
@@ -224,7 +290,8 @@ class ClientSubRun:
         res = self.res
         kind = ch.weighted("op.kind", [(5, "subscribe"), (4, "unsubscribe"), (4, "pause"), (4, "resume"),
                                        (1, "unsub_all"), (1, "pause_all"), (1, "resume_all"),
-                                       (4, "sub_ctx"), (4, "pause_ctx"), (1, "reconnect"), (1, "drop_reconnect")])
+                                       (4, "sub_ctx"), (4, "pause_ctx"), (1, "reconnect"), (1, "drop_reconnect"),
+                                       (3 if self.twin is not None else 0, "concurrent")])
         if self.twin is not None and self.twin.connected and ch.flag("op.twin", 1, 3):
             tl = self.arg_list("twin")
             tk = ch.choose("twin.kind", ["subscribe", "unsubscribe", "pause", "resume"])
@@ -305,6 +372,8 @@ class ClientSubRun:
                             f"{what} entered with subscribed={self.fmt(s0)} paused={self.fmt(p0)} left "
                             f"subscribed={self.fmt(s1)} paused={self.fmt(p1)}",
                             sig="context_not_restored:" + ("paused" if s1 == s0 else "subscribed"))
+            elif kind == "concurrent":
+                self.concurrent_ops()
             elif kind == "drop_reconnect":
                 # the network resets the connection; the same Client object connects again
                 from pyrtma.exceptions import ClientError
